@@ -33,6 +33,14 @@ mod c16_fmt;
 mod c16_lines;
 #[path = "../shared/c16_model_rw.rs"]
 mod c16_model_rw;
+#[path = "../shared/c16_wave6.rs"]
+mod c16_wave6;
+#[path = "../shared/c16_enc.rs"]
+mod c16_enc;
+#[path = "../shared/c16_idxw.rs"]
+mod c16_idxw;
+#[path = "../shared/c16_idxr.rs"]
+mod c16_idxr;
 
 use c16_adversary::{AdvReader, AdvWriter, Sched, block_on};
 
@@ -914,6 +922,10 @@ fn generate(rng: &mut Rng, tier: &str, w: &mut CaseWriter) {
     c16_fmt::generate(rng, tier, w);
     // new kinds last: the case streams of the older kinds stay as they were
     c16_lines::generate(rng, tier, w);
+    c16_wave6::generate(rng, tier, w);
+    c16_enc::generate(rng, tier, w);
+    c16_idxw::generate(rng, tier, w);
+    c16_idxr::generate(rng, tier, w);
 }
 
 fn run(c: &Case) -> Obs {
@@ -924,7 +936,7 @@ fn run(c: &Case) -> Obs {
         "ardr" => c16_model_rw::run_ardr(c),
         "awr" => c16_model_rw::run_awr(c),
         "abam" => c16_model_rw::run_abam(c),
-        k => match c16_lines::run(c).or_else(|| c16_fmt::run(c)) {
+        k => match c16_lines::run(c).or_else(|| c16_wave6::run(c)).or_else(|| c16_fmt::run(c)).or_else(|| c16_enc::run(c)).or_else(|| c16_idxw::run(c)).or_else(|| c16_idxr::run(c)) {
             Some(o) => o,
             None => Obs::fail("-", "harness-unknown-kind", k),
         },
